@@ -130,6 +130,30 @@ fn candidates(i: &Inner, only_objs: Option<&[u8]>, dormant_pool_threads: usize, 
         }
         // else: started and busy inside its body: whatever it waits for is reported on its own
     }
+    // (3a) inline tasks: woken means polled, so a finished operation means a resolved future
+    for (f, done) in i.inline_futs.iter() {
+        let o = &i.ops[*f];
+        if *done || !in_scope(o.obj) || i.objs[o.obj].expect_panicked {
+            continue;
+        }
+        waiting_things += 1;
+        if o.ended() && !o.cancelled {
+            out.push(Cand { op: Some(*f), obj: o.obj, prop: "C07", clause: "await-not-woken", inv: o.end, ret: u64::MAX, detail: format!("the inline task holding the future of #{} ({:?} on o{}) has not received the result although the operation finished at t={}", f, o.kind, o.obj, o.end) });
+        }
+    }
+    for (s, done) in i.inline_consumers.iter() {
+        let st = &i.streams[*s];
+        let obj = st.pipe_obj.unwrap_or(0);
+        if *done || !in_scope(obj) {
+            continue;
+        }
+        waiting_things += 1;
+        if st.processed.len() > st.outputs.len() {
+            out.push(Cand { op: None, obj, prop: "C12", clause: "consumer-not-woken", inv: 0, ret: 0, detail: format!("the inline consumer of pipe s{} has {} outputs although {} items have been processed", s, st.outputs.len(), st.processed.len()) });
+        } else if pool_capacity && st.closed && st.processed.len() == st.pushed.len() && st.items.is_empty() {
+            out.push(Cand { op: None, obj, prop: "C12", clause: "end-not-delivered", inv: 0, ret: 0, detail: format!("the inline consumer of pipe s{} has not seen the end although the input ended and all {} items were delivered", s, st.outputs.len()) });
+        }
+    }
     // (3) callers waiting for a future whose operation has finished
     for c in i.callers.iter() {
         match c.stage {
